@@ -5,6 +5,7 @@ import (
 	"net"
 	"os"
 	"path/filepath"
+	"runtime"
 	"sync"
 	"sync/atomic"
 	"syscall"
@@ -30,6 +31,10 @@ type Cfg struct {
 	SndBuf  int    `json:"sndbuf,omitempty"`
 	RcvBuf  int    `json:"rcvbuf,omitempty"`
 	NPoller int    `json:"npoller,omitempty"`
+	// Written registers an OnWrittenSize handler that yields or sleeps a few
+	// microseconds: a delay point inside the write and flush paths (the
+	// library calls it with the connection lock held).
+	Written bool `json:"written_handler,omitempty"`
 }
 
 func (c Cfg) Cell() string { return c.Net + "/" + c.Mode }
@@ -51,6 +56,9 @@ type Env struct {
 	OnCloseHook func(c *nbio.Conn, err error)
 	// closes: conn -> errors seen
 	closes map[*nbio.Conn][]error
+	// WrittenCalls / WrittenBytes count the OnWrittenSize reports (Cfg.Written).
+	WrittenCalls int64
+	WrittenBytes int64
 }
 
 // Log captures nbio's log output for every outbound worker.
@@ -123,6 +131,18 @@ func NewEnv(cfg Cfg) (*Env, error) {
 			f(c, b)
 		}
 	})
+	if cfg.Written {
+		g.OnWrittenSize(func(c *nbio.Conn, b []byte, n int) {
+			x := atomic.AddInt64(&e.WrittenCalls, 1)
+			atomic.AddInt64(&e.WrittenBytes, int64(n))
+			switch x % 4 {
+			case 0:
+				time.Sleep(time.Duration(20+x%97) * time.Microsecond)
+			case 1, 2:
+				runtime.Gosched()
+			}
+		})
+	}
 	if err := g.Start(); err != nil {
 		if e.dir != "" {
 			os.RemoveAll(e.dir)
